@@ -83,7 +83,9 @@ def colour_specs(rng, n_random, lattice=LATTICE, indexed=INDEXED_SPREAD):
                 k += 1
     # near-greys around the 10% saturation rule and exact greys off the lattice
     for r, g, b in ((100, 100, 100), (7, 7, 7), (250, 250, 250), (100, 104, 108), (120, 110, 100),
-                    (200, 190, 180), (50, 60, 55), (254, 255, 255), (1, 0, 0), (128, 127, 129)):
+                    (200, 190, 180), (50, 60, 55), (254, 255, 255), (1, 0, 0), (128, 127, 129),
+                    # both ends of the grey ramp: the last ramp entry before white, the first after black
+                    (240, 240, 240), (244, 243, 242), (249, 249, 249), (6, 6, 6), (14, 14, 14), (5, 5, 5)):
         specs.append("#%02x%02x%02x" % (r, g, b))
     for _ in range(n_random):
         r, g, b = rng.randrange(256), rng.randrange(256), rng.randrange(256)
@@ -458,6 +460,8 @@ REUSE_ORDERS = (
     ("truecolor", "standard"), ("standard", "truecolor"), ("truecolor", "256"), ("256", "truecolor"),
     ("256", "standard"), ("standard", "256"), ("windows", "truecolor"), ("truecolor", "windows"),
     ("256", "windows", "truecolor", "standard"), ("standard", "standard"), ("truecolor", None, "256"),
+    # the same object on a colour console and then on a NO_COLOR console of the same system ("<system>/nc"), and back
+    ("standard", "standard/nc", "standard"), ("truecolor", "truecolor/nc"), ("256/nc", "256", "256/nc"), ("windows", "windows/nc"),
 )
 
 
@@ -466,13 +470,16 @@ def evaluate_reuse(spec, order, text="xy"):
     style = build_style(spec)
     fails = []
     for step, system in enumerate(order):
-        config = {"color_system": system, "no_color": False, "force_terminal": True, "legacy_windows": False}
+        nc = isinstance(system, str) and system.endswith("/nc")
+        if nc:
+            system = system[:-3]
+        config = {"color_system": system, "no_color": nc, "force_terminal": True, "legacy_windows": False}
         segs = [[text, spec, False]]
         out = write_case(segs, config, "segments", styles=[style])
         _ev, f = check_stream(out, segs, config)
         for clause, what, exp, obs in f:
             fails.append(("c03.style_reuse", "step %d (%s) after %s: %s [%s]" % (
-                step, system, list(order[:step]), what, clause), exp, obs))
+                step, order[step], list(order[:step]), what, clause), exp, obs))
         if fails:
             break
     return ["c03.style_reuse"], fails
